@@ -25,6 +25,8 @@ CHECKS = {
          "regexp program encoded as bounded Pike-VM reachability (validated against MatchString each run); rules parsed natively by the real parser; engine; z3"),
  "C01": ("NetworkEngine.AddRule/MatchAll with the real ShortcutsTable, DomainsTable and SeqScanTable on 1..2 (thorough 3) symbolic rules (literal shortcut of symbolic bytes below/at/above the window length, symbolic $domain values incl. wildcard TLD) and a symbolic URL and source host: rule.Match(q) <=> rule in MatchAll(q), nothing else returned; the hash is an uninterpreted function so every collision pattern is covered",
          "perfect storage stub; literal-pattern stub; hash abstraction justified by a lemma on the real body each run; counterexamples that need a real collision are not replayable (noted, outside the claim); PSL model; engine; z3"),
+ "C19": ("fault schedule as symbolic Booleans: every storage retrieval during NetworkEngine.MatchAll may fail independently: no crash, every returned rule matches, in-memory rules still served; RuleStorage.RetrieveRule over a list that may fail at every call (sequences of 1..3/5 retrievals): failures never cached, materialised rules still served, unknown lists yield errors",
+         "stub retrieval returns nil on a fault (the real RetrieveRule/RetrieveNetworkRule path is checked in the storage harness); closed-file behaviour of the OS outside; engine; z3"),
  "C16": ("unbounded in the fields the function reads (64-bit option word, 32-bit mask, exception flag fully symbolic under the parser's representation invariant); counterexamples replayed from rule text through the real parser",
          "InvRule on option words (validated natively on the repo's own rule corpus); go/ssa lowering; engine; z3"),
 }
